@@ -1,7 +1,8 @@
 """Source of MANIFEST.json (bin/mkmanifest writes and validates it)."""
 
 HOOK_COMMITS = ["ab3948d verif hook (guarded by DSPLIB_VERIF): plan-cache key accessors and access observer",
-                "f21e9f7 verif hook (guarded by DSPLIB_VERIF): thread-local trial-division counter in the prime helpers"]
+                "f21e9f7 verif hook (guarded by DSPLIB_VERIF): thread-local trial-division counter in the prime helpers",
+                "905a836 verif hook (guarded by DSPLIB_VERIF): cooperative yield points (factor-FFT scratch, generator calls, plan-cache lookup)"]
 
 CLAIMED = {
     "C04": dict(
@@ -128,6 +129,37 @@ CLAIMED.update({
         technique="TLA+ shape/arithmetic spec + TLC; round-trip trace validation",
         design="4/C02"),
 })
+
+def _doc(mod):
+    import importlib
+    return " ".join((importlib.import_module("vlib." + mod).__doc__ or "").split())
+
+
+for _pid, _tech, _note in [
+    ("C05", "TLA+ API outcome contract + TLC; spec-enumerated call programs run under ASan/UBSan in forked children, validated by TLC",
+     "Trusted: TLC, ApiContract.tla, ASan+UBSan (the memory-safety / UB monitor lies outside TLA+; the spec supplies the case "
+     "structure and the verdict rule), fork/alarm isolation."),
+    ("C09", "TLA+ scratch-ownership spec + TLC (all interleavings); forced schedules at hook yield points + TSan stress, validated by TLC",
+     "Trusted: TLC, Threads.tla, the cooperative scheduler and DSPLIB_VERIF yield points, ThreadSanitizer for the free-running phase "
+     "(race detection lies outside TLA+)."),
+    ("C11", "TLA+ design rules + TLC theorems; trace validation of lengths/symmetry/acceptance, thresholds on long-double residuals",
+     "Trusted: TLC, Design.tla, long-double closed forms and response grid (closed-form and mask clauses are T3 only)."),
+    ("C12", "TLA+ integer LMS recursion + lock machine, TLC MC; exact trace validation + long-double residual thresholds",
+     "Trusted: TLC, Adaptive.tla, long-double references for NLMS/RLS clauses (T3)."),
+    ("C13", "TLA+ label maps + TLC theorems; trace validation of labels/shape/peak label, thresholds on long-double power sums",
+     "Trusted: TLC, Spectrum.tla, long-double sums (T3). Known finding: complex welch labelling (known_findings.txt)."),
+    ("C14", "TLA+ exact tuner phase arithmetic + TLC MC over framings; trace validation (exact integer phase), residual thresholds",
+     "Trusted: TLC, Analytic.tla, atan2l read-out of the tuner phase, analytic tone for the quadrature clause (T3)."),
+    ("C17", "TLA+ index maps + TLC theorems; exhaustive small-scope trace validation; lattice (T2) and long-double (T3) thresholds",
+     "Trusted: TLC, MathShapes.tla, long-double libm (the random-magnitude clause is T3 only)."),
+    ("C18", "TLA+ frame/offset arithmetic + ring-buffer MC; trace validation of detector frame/offset/alignment, finddelay, peakloc rational",
+     "Trusted: TLC, Detector.tla, driver PRNG signals; detector thresholds below max(0.5, 6/sqrt(Lp)) are outside the satisfiable domain."),
+    ("C19", "TLA+ per-thread generator history spec + TLC MC over interleavings; trace validation of replays (bit exact), statistical thresholds",
+     "Trusted: TLC, Random.tla, FNV digest of returned bytes; calibration clauses are T3/statistical (6 standard errors)."),
+    ("C20", "TLA+ exact rational static curves + gate machine, TLC theorems/MC; trace validation on a centi-dB grid",
+     "Trusted: TLC, Dynamics.tla, milli-dB quantisation of observed gains."),
+]:
+    CLAIMED[_pid] = dict(text=_doc(_pid.lower())[:1900], note=_note, technique=_tech, design="4/" + _pid)
 
 NOT_APPLICABLE = {
 }
